@@ -218,3 +218,24 @@ def tpl_density(ctx, cls, dim, low):
     got = mod.spectral_density(karr)
     exp = fn(karr, dim, l / s, H, ll / s)
     ctx.ensure("density=documented-density(l/s, l_low/s)", ctx.eq(got[0], exp[0]))
+
+
+@contract(P, "CovModel.dim.setter/numerical-spectrum-follows-the-dimension",
+          params=[{"cls": c, "dim": d, "dim2": d2} for c in ("Stable", "Spherical", "Cubic") for d in (1, 2, 3) for d2 in (1, 2, 3) if d != d2],
+          functions=["covmodel/tools.py:set_dim", "covmodel/base.py:CovModel.spectral_density", "covmodel/tools.py:spectral_rad_pdf"],
+          bounded="native evaluation at two wave numbers (the Hankel transform has no symbolic contract)")
+def numeric_spectrum_dim(ctx, cls, dim, dim2):
+    """models without an analytic density use the Hankel transform of the correlation: after a
+    dimension change it must be the transform of the NEW dimension, and the radial pdf must use the
+    sphere surface of the new dimension (call history: construct, use, change dim, use)"""
+    with symrun.native():          # concrete models and wave numbers: evaluated natively in both modes
+        mod = _q(getattr(gs, cls), dim=dim)
+        k0 = np.array([0.7, 1.3])
+        _q(mod.spectral_density, k0)
+        _q(setattr, mod, "dim", dim2)
+        fresh = _q(getattr(gs, cls), dim=dim2)
+        a, b = _q(mod.spectral_density, k0), _q(fresh.spectral_density, k0)
+        pa, pb = _q(mod.spectral_rad_pdf, k0), _q(fresh.spectral_rad_pdf, k0)
+    ctx.ensure("hankel-dimension=model-dimension", mod._sft.ndim == mod.dim == dim2)
+    ctx.ensure("density=density-of-fresh-model", bool(np.allclose(a, b, rtol=1e-9, atol=1e-12)))
+    ctx.ensure("radial-pdf=radial-pdf-of-fresh-model", bool(np.allclose(pa, pb, rtol=1e-9, atol=1e-12)))
